@@ -2,6 +2,7 @@ package main
 
 import (
 	"fmt"
+	"go/ast"
 	"go/token"
 	"go/types"
 	"os"
@@ -38,6 +39,7 @@ type loopInfo struct {
 	header    *ssa.BasicBlock
 	blocks    map[*ssa.BasicBlock]bool
 	ord       int // 1-based source order
+	synBlocks map[*ssa.BasicBlock]bool
 	spec      *LoopSpec
 	items     []modEntry
 	allocLE   string
@@ -300,6 +302,7 @@ func (a *Act) runBlocks(blocks []*ssa.BasicBlock, dryLoop *loopInfo) {
 		if dryLoop != nil && b == dryLoop.header {
 			st = a.in[b]
 		} else {
+			a.afterLoopAsserts(b)
 			st = a.enterBlock(b)
 			if st == nil {
 				continue
@@ -322,6 +325,103 @@ func (a *Act) runBlocks(blocks []*ssa.BasicBlock, dryLoop *loopInfo) {
 		}
 		a.curIdx = len(b.Instrs)
 		a.out[b] = a.cur
+	}
+}
+
+// synLoopBlocks returns the blocks that belong to the source text of the loop statement of li
+// (unlike the natural loop this includes the bodies of branches that end in break / return).
+func (a *Act) synLoopBlocks(li *loopInfo) map[*ssa.BasicBlock]bool {
+	if li.synBlocks != nil {
+		return li.synBlocks
+	}
+	var stmts []ast.Node
+	if syn := a.fn.Syntax(); syn != nil {
+		var body ast.Node
+		switch f := syn.(type) {
+		case *ast.FuncDecl:
+			body = f.Body
+		case *ast.FuncLit:
+			body = f.Body
+		}
+		if body != nil {
+			ast.Inspect(body, func(n ast.Node) bool {
+				switch n.(type) {
+				case *ast.FuncLit:
+					return false
+				case *ast.ForStmt, *ast.RangeStmt:
+					stmts = append(stmts, n)
+				}
+				return true
+			})
+		}
+	}
+	if len(stmts) != len(a.loops) || li.ord < 1 || li.ord > len(stmts) {
+		a.vc.specErrs = append(a.vc.specErrs, fmt.Sprintf("after-loop %d: loop statements of the source (%d) do not match the loops of the SSA form (%d)", li.ord, len(stmts), len(a.loops)))
+		li.synBlocks = map[*ssa.BasicBlock]bool{}
+		return li.synBlocks
+	}
+	st := stmts[li.ord-1]
+	m := map[*ssa.BasicBlock]bool{}
+	for _, b := range a.fn.Blocks {
+		if li.blocks[b] {
+			m[b] = true
+			continue
+		}
+		for _, in := range b.Instrs {
+			if _, isPhi := in.(*ssa.Phi); isPhi {
+				continue
+			}
+			if p := in.Pos(); p.IsValid() && st.Pos() <= p && p < st.End() {
+				m[b] = true
+				break
+			}
+		}
+	}
+	li.synBlocks = m
+	return m
+}
+
+// afterLoopAsserts handles "assert after-loop N name: E": on every edge that leaves the source
+// text of loop N (normal exit, break) for block b the assertion is proved in the state at the end
+// of the leaving block, then assumed.
+func (a *Act) afterLoopAsserts(b *ssa.BasicBlock) {
+	if a.dry || a.contract == nil {
+		return
+	}
+	for _, as := range a.contract.Asserts {
+		if !strings.HasPrefix(as.Label, "after-loop ") {
+			continue
+		}
+		for _, li := range a.loops {
+			if as.Label != fmt.Sprintf("after-loop %d", li.ord) {
+				continue
+			}
+			syn := a.synLoopBlocks(li)
+			if syn[b] {
+				continue
+			}
+			for _, p := range b.Preds {
+				if !syn[p] || a.out[p] == nil {
+					continue
+				}
+				c, ok := a.edge[[2]int{p.Index, b.Index}]
+				if !ok {
+					continue
+				}
+				st := &State{mem: a.out[p].mem, reach: c}
+				env := a.baseEnv(st)
+				env.vars = a.paramVars()
+				env.loop = li
+				pp := p
+				saveBlk := a.curBlk
+				a.curBlk = nil
+				env.resolve = func(name string) (Val, bool) { return a.resolveDom(pp, name, st) }
+				t := env.evalBool(as.Expr)
+				a.curBlk = saveBlk
+				a.vc.oblige("assert", fmt.Sprintf("loop%d:%s@exit%d", li.ord, as.Name, p.Index), c, t, as.Src, a.posOf(firstPos(b)))
+				a.vc.assume(c, t)
+			}
+		}
 	}
 }
 
